@@ -270,7 +270,7 @@ def run(ctx):
 CLAIM = {
     "text": "Decides the error discipline of the message loop: command exceptions and unknown commands become the response of the causing "
             "message; exception responses are thrown at the current yield; the pending status failure is polled before every send/throw; "
-            "wait ends at the first failed status and every status-returning command registers its status; unhandled exceptions are "
+            "wait ends at the first failed status, never returns normally with pending futures it has not awaited (must-pass), and every status-returning command registers its status; unhandled exceptions are "
             "re-raised when the plan stack empties. Which yield a concurrent failure lands on is not decided.",
     "technique": "handler-shape (error discipline) rules; dominance on the loop CFG; table of status-registering handlers",
 }
